@@ -99,6 +99,26 @@ def _reachable_methods(mt: ir.Method) -> list[ir.Method]:
     return list(seen)
 
 
+def _drop_const_hints(region: ir.Region) -> None:
+    """forget the `const` hints of a copied method: they were cloned from the original
+    and describe ITS statements (the hint of a closure names the original's lambda), so
+    folding the copy would meet them with the copy's own results and leave Bottom."""
+    for block in region.blocks:
+        for arg in block.args:
+            arg.hints.pop("const", None)
+        for stmt in block.stmts:
+            for result in stmt.results:
+                result.hints.pop("const", None)
+            for nested in stmt.regions:
+                _drop_const_hints(nested)
+
+
+def _copy_of(mt: ir.Method) -> ir.Method:
+    new_mt = mt.similar()
+    _drop_const_hints(new_mt.callable_region)
+    return new_mt
+
+
 @dataclass
 class _RetargetMethods(RewriteRule):
     new_methods: dict[ir.Method, ir.Method]
@@ -143,7 +163,7 @@ class InjectSpecsPass(Pass):
         # pointed at the copies before anything is folded.
         new_methods: dict[ir.Method, ir.Method] = {}
         for original in _reachable_methods(mt):
-            new_mt = original if original is mt else original.similar()
+            new_mt = original if original is mt else _copy_of(original)
             result = rule.rewrite(new_mt.code).join(result)
             new_methods[original] = new_mt
 
